@@ -91,14 +91,9 @@ Theorem decode_encode_any_table :
 Proof. exact decode_encode_proof. Qed.
 Print Assumptions decode_encode_any_table.
 
-(* DataURIEncodingTable does not mark '+', which DecodeURL turns into a space: no round trip *)
-Theorem datauri_table_plus_refuted :
-  exists b, Forall is_byte b /\
-    exists r, encode_url b Tables.datauri_encoding_table = Ok r /\ decode_url r <> Ok b.
-Proof. exact datauri_table_plus_refuted_proof. Qed.
-Print Assumptions datauri_table_plus_refuted.
-
-(* precisely: with DataURIEncodingTable everything but '+' comes back, '+' comes back as a space *)
+(* DecodeURL is the query-string decoder ('+' is a space, as url.QueryUnescape): with a table that
+   leaves '+' alone, such as DataURIEncodingTable, everything but '+' comes back.  (DataURI does not
+   use it: see pct_decode_encode.) *)
 Theorem decode_encode_datauri_table :
   forall b, Forall is_byte b ->
     exists r, encode_url b Tables.datauri_encoding_table = Ok r /\ decode_url r = Ok (map plus_to_space b).
@@ -109,6 +104,25 @@ Print Assumptions decode_encode_datauri_table.
 Theorem decode_not_longer : forall b r, decode_url b = Ok r -> len r <= len b.
 Proof. exact decode_not_longer_proof. Qed.
 Print Assumptions decode_not_longer.
+
+(* decodeURL(b, false), the decoder DataURI uses since /repo 52357eb: percent-decoding only, '+' kept *)
+Theorem pct_decode_spec : forall b, decode_url_gen false b = Ok (pct_unescape b).
+Proof. exact pct_decode_spec_proof. Qed.
+Print Assumptions pct_decode_spec.
+
+(* ... it inverts EncodeURL for ANY table that marks '%' (and on which EncodeURL terminates);
+   the condition is exact: a table that leaves '%' alone does not round-trip "%41" *)
+Theorem pct_decode_encode :
+  forall t b r, table256 t -> enc_stable t -> tbl t 37 = Some true -> Forall is_byte b ->
+    encode_url b t = Ok r -> decode_url_gen false r = Ok b.
+Proof. exact pct_decode_encode_proof. Qed.
+Print Assumptions pct_decode_encode.
+
+Theorem pct_needs_percent_marked :
+  forall t, table256 t -> tbl t 37 = Some false -> tbl t 52 = Some false -> tbl t 49 = Some false ->
+    encode_ref t [37; 52; 49] = [37; 52; 49] /\ pct_unescape [37; 52; 49] = [65].
+Proof. exact UrlProofs.pct_needs_percent_marked. Qed.
+Print Assumptions pct_needs_percent_marked.
 
 Theorem no_panic_url :
   forall b, Forall is_byte b ->
@@ -124,41 +138,59 @@ Theorem base64_roundtrip : forall d, Forall is_byte d -> b64_decode (b64_encode 
 Proof. exact b64_roundtrip_proof. Qed.
 Print Assumptions base64_roundtrip.
 
-(* For arbitrary bytes d and a header p ++ last made of a parameter list ((segment delimiter)*,
-   delimiters ';' and '=', segments free of = ; , and not reading "base64" in front of a ';') and a
-   last segment that does not read "base64": DataURI returns exactly d, both for ";base64," +
-   base64(d) and for "," + percent-encoding of d with a table that marks '%' and '+'; the media type
-   is the header with every segment trimmed (text/plain when that is empty or starts with ';').
+(* EVERY media type  type/subtype *( ";" name "=" value )  -- names and values are arbitrary bytes
+   other than = ; , without surrounding whitespace, so they may read "base64" -- and EVERY byte
+   string d: DataURI of "data:" mt ";base64," base64(d) and of "data:" mt "," pct(d) returns exactly
+   (mt, d), where pct is the percent-encoding under ANY table that marks '%' (nothing else is
+   needed: DataURI decodes only %XY, and everything behind the first comma is payload).
    Stated for ANY base64 decoder that inverts its encoder (Section variable, no axiom). *)
+Theorem datauri_mediatype_roundtrip :
+  forall (b64dec : list Z -> option (list Z)) (b64enc : list Z -> list Z),
+    (forall d, Forall is_byte d -> b64dec (b64enc d) = Some d) ->
+    forall ty ps d t, plain ty -> In 47 ty -> tight ty -> Forall param_ok ps -> Forall is_byte d ->
+      let mt := media_type ty ps in
+      data_uri b64dec (data_scheme ++ mt ++ 59 :: base64_bytes ++ 44 :: b64enc d) = Ok (DOk mt d) /\
+      (tbl t 37 = Some true ->
+       data_uri b64dec (data_scheme ++ mt ++ 44 :: encode_ref t d) = Ok (DOk mt d)).
+Proof. exact datauri_mediatype_roundtrip_proof. Qed.
+Print Assumptions datauri_mediatype_roundtrip.
+
+(* text/plain when the media type is absent *)
+Theorem datauri_no_mediatype :
+  forall (b64dec : list Z -> option (list Z)) (b64enc : list Z -> list Z),
+    (forall d, Forall is_byte d -> b64dec (b64enc d) = Some d) ->
+    forall d t, Forall is_byte d ->
+      data_uri b64dec (data_scheme ++ 59 :: base64_bytes ++ 44 :: b64enc d) = Ok (DOk text_mime d) /\
+      (tbl t 37 = Some true -> data_uri b64dec (data_scheme ++ 44 :: encode_ref t d) = Ok (DOk text_mime d)).
+Proof. exact datauri_no_mediatype_proof. Qed.
+Print Assumptions datauri_no_mediatype.
+
+(* The general form behind both: any header p ++ last where p is a list of segments with ';' / '='
+   delimiters (params, which threads the previous delimiter) and last a final segment; a segment
+   reading "base64" is allowed wherever it is a parameter name (in front of '=') or value (behind
+   '='); whitespace around segments is trimmed away; an empty header or one starting with ';' gives
+   text/plain (mt_default). *)
 Theorem datauri_roundtrip :
   forall (b64dec : list Z -> option (list Z)) (b64enc : list Z -> list Z),
     (forall d, Forall is_byte d -> b64dec (b64enc d) = Some d) ->
-    forall p np last d t, params p np -> plain last -> trim_ref last <> base64_bytes -> Forall is_byte d ->
+    forall p np pv last d t, params 0 p np pv -> plain last -> (pv <> 61 -> trim_ref last <> base64_bytes) -> Forall is_byte d ->
       let mt := mt_default (np ++ trim_ref last) in
       data_uri b64dec (data_scheme ++ (p ++ last) ++ 59 :: base64_bytes ++ 44 :: b64enc d) = Ok (DOk mt d) /\
-      (tbl t 37 = Some true -> tbl t 43 = Some true ->
+      (tbl t 37 = Some true ->
        data_uri b64dec (data_scheme ++ (p ++ last) ++ 44 :: encode_ref t d) = Ok (DOk mt d)).
 Proof. exact datauri_roundtrip_proof. Qed.
 Print Assumptions datauri_roundtrip.
 
-(* the instance that runs in the correspondence check: the executable base64 model and the
-   generated URL table *)
+(* the instance that runs in the correspondence check: the executable base64 model, the model of
+   EncodeURL itself and BOTH generated tables (DataURIEncodingTable leaves '+' alone; it comes back) *)
 Theorem datauri_roundtrip_std :
-  forall p np last d, params p np -> plain last -> trim_ref last <> base64_bytes -> Forall is_byte d ->
-    let mt := mt_default (np ++ trim_ref last) in
-    data_uri b64_decode (data_scheme ++ (p ++ last) ++ 59 :: base64_bytes ++ 44 :: b64_encode d) = Ok (DOk mt d) /\
-    data_uri b64_decode (data_scheme ++ (p ++ last) ++ 44 :: encode_ref Tables.url_encoding_table d) = Ok (DOk mt d).
+  forall ty ps d, plain ty -> In 47 ty -> tight ty -> Forall param_ok ps -> Forall is_byte d ->
+    let mt := media_type ty ps in
+    data_uri b64_decode (data_scheme ++ mt ++ 59 :: base64_bytes ++ 44 :: b64_encode d) = Ok (DOk mt d) /\
+    (forall r, encode_url d Tables.datauri_encoding_table = Ok r -> data_uri b64_decode (data_scheme ++ mt ++ 44 :: r) = Ok (DOk mt d)) /\
+    (forall r, encode_url d Tables.url_encoding_table = Ok r -> data_uri b64_decode (data_scheme ++ mt ++ 44 :: r) = Ok (DOk mt d)).
 Proof. exact datauri_roundtrip_std_proof. Qed.
 Print Assumptions datauri_roundtrip_std.
-
-(* percent-encoding with the library's own DataURIEncodingTable instead: the payload comes back with
-   every '+' turned into a space and is otherwise exact (the precise extent of finding datauri-plus) *)
-Theorem datauri_percent_datauri_table :
-  forall b64dec p np last d, params p np -> plain last -> trim_ref last <> base64_bytes -> Forall is_byte d ->
-    data_uri b64dec (data_scheme ++ (p ++ last) ++ 44 :: encode_ref Tables.datauri_encoding_table d) =
-    Ok (DOk (mt_default (np ++ trim_ref last)) (map plus_to_space d)).
-Proof. exact datauri_percent_datauri_table_proof. Qed.
-Print Assumptions datauri_percent_datauri_table.
 
 (* DataURI never panics on arbitrary bytes (whatever the base64 decoder does), and it returns
    ErrBadDataURI exactly when the argument is not "data:" followed by something containing a comma;
@@ -174,15 +206,6 @@ Theorem no_panic_datauri :
   forall b64dec b, Forall is_byte b -> exists r, data_uri b64dec b = Ok r.
 Proof. exact no_panic_datauri_proof. Qed.
 Print Assumptions no_panic_datauri.
-
-(* The two deviations from the property text that the Go oracle reports as findings, on the model:
-   a literal '+' (which DataURIEncodingTable leaves alone) becomes a space; a parameter VALUE that
-   reads "base64" is taken for the ;base64 marker. *)
-Theorem datauri_exact_payload_refuted :
-  data_uri b64_decode (data_scheme ++ [44; 97; 43; 98]) = Ok (DOk text_mime [97; 32; 98]) /\
-  data_uri b64_decode (data_scheme ++ [120; 47; 121; 59; 97; 61] ++ base64_bytes ++ [44; 37; 48; 55]) = Ok DB64Err.
-Proof. exact datauri_findings_proof. Qed.
-Print Assumptions datauri_exact_payload_refuted.
 
 (* ---- Mediatype ----------------------------------------------------------------------------------------- *)
 (* For all inputs: no panic, the fuel of the PARAM loop is never exhausted, the mimetype is the
